@@ -89,7 +89,8 @@ CLAIMED = {
          "memb) under the cooperative runtime incl. the real defer thread, ring wrap, the SIZE-2 flush, futex fault plans, "
          "one-preemption sweeps of the dec->scan->wait and head-store->mb->futex-load windows. Liveness: C13_conc_full_proved "
          "(defer_thread_eventually_woken under weak fairness of the owners; Props/LiveC13.lean). Partial: the two L2 models are composed "
-         "through their shared steps, not by a mechanised refinement.",
+         "through their shared steps, not by a mechanised refinement."
+         " Source-translator tie (DESIGN 10.15): _defer_rcu (producer, non-full path), rcu_defer_barrier_queue (consumer) and their round trip are translated from the C text on every run and proved against Defer/Codec, Ring, Model and the local projections of the concurrent model (Props/SrcDefer.lean); the _defer_rcu IR is replayed against ~200 compiled calls per run.",
     note="Trusted: Lean kernel; GpSpec as the meaning of synchronize_rcu; each API step atomic under rcu_defer_mutex (enqueue interleaves "
          "between snapshot/gp/run); harness shims (TLS array, mutex/thread/malloc hooks, SIGSEGV-simulated calls for non-callable "
          "function words); malloc succeeds; 64-bit long.",
@@ -158,7 +159,8 @@ CLAIMED = {
          "scheduler; every shared access/barrier/lock/futex event of every thread is matched against an event-level transliteration "
          "of the C text (Driver/Gp.lean) which replays the induced labels on the proven model. TSO-only failures are reported with the "
          "Lean-checked necessity witness (Neg/C01.lean). Configurations run: memb+membarrier, memb fallback, mb, qsbr, bp with and without "
-         "sys_membarrier. Partial: the 32-bit two-phase qsbr variant is not built here.",
+         "sys_membarrier. Partial: the 32-bit two-phase qsbr variant is not built here."
+         " Source-translator tie (DESIGN 10.15): the C text of rcu_read_lock/unlock/read_ongoing of memb, mb, bp, of the qsbr quiescent_state / offline / online, and of synchronize_rcu + wait_for_readers + urcu_common_reader_state + wait_gp + smp_mb_master (memb, mb) is translated into Lean IR on every run (harness/gen/gen_src.py -> Gen/Src.lean) and PROVED, for every oracle / schedule prefix, to refine the thread-local projection of the TSO model (Props/SrcRead.lean, Props/SrcSync.lean; the wait-queue batching around the grace period enters as the explicit hypothesis QueueQuiet, the registry lists through an explicit list-oracle discipline); the IR is validated against the compiled code by replaying the harness traces on it (Driver/Src.lean, incl. whole synchronize_rcu calls).",
     note="Trusted: Lean kernel; x86-TSO machine and sys_membarrier contract; the event-level transliteration is validated on the "
          "explored schedules only (not proved to refine the abstract model); harness runs are SC; compiler barriers checked for "
          "presence only; 64-bit counters do not wrap.",
@@ -178,7 +180,8 @@ CLAIMED = {
          "src/urcu.c for the RCU scheme) under the macro shim and cooperative scheduler; every trace replayed by Driver/Wfs.lean / "
          "Driver/Lfs.lean on the proven models; independent C oracle (LIFO linearizability, return values, exactly-once, recycled-node "
          "accesses); random/PCT/one-preemption sweep; 7 configurations incl. wfs/rcu (real urcu memb, concurrent mutex-free poppers, "
-         "pop-vs-pop cmpxchg failures required by coverage).",
+         "pop-vs-pop cmpxchg failures required by coverage)."
+         " Source-translator tie (DESIGN 10.15): the C text of wfstack push / pop / pop_all / empty / node_sync_next and lfstack push / pop / pop_all / empty is translated into Lean IR on every run and proved to refine the thread-local projections of the Wfs / Lfs models (Props/SrcStack.lean); IR replayed against the compiled code's traces.",
     note="Trusted: Lean kernel; x86-TSO; GpSpec as the meaning of synchronize_rcu (composition by interface, the model's guard is "
          "re-checked at every real synchronize_rcu return on explored schedules); one popped list per thread at a time; L1 ⊑ L2 checked on "
          "explored schedules only; plain node->next initialisation reported by the scenario.",
@@ -196,7 +199,8 @@ CLAIMED = {
          "(uaf_reachable_unfixed, destroy_eperm_on_empty_reachable_unfixed). Tie: the real src/rculfqueue.c + header and the real "
          "src/urcu.c (memb with/without sys_membarrier, mb; call_rcu helper as a cooperative thread) under the shim; random/PCT/one-"
          "preemption sweep/directed schedules replayed by Driver/Lfq.lean on the model; independent oracles (Henzinger-Sezgin-Vafeiadis "
-         "FIFO patterns, dummy, count, destroy, gp, page quarantine of freed nodes/dummies, DEADLOCK/BUDGET).",
+         "FIFO patterns, dummy, count, destroy, gp, page quarantine of freed nodes/dummies, DEADLOCK/BUDGET)."
+         " Source-translator tie (DESIGN 10.15): _cds_lfq_enqueue_rcu translated from the C text and proved to refine the Lfq model's local projection (CAS retry loop by induction), _cds_lfq_dequeue_rcu partially (no-allocation path) (Props/SrcQueue.lean); enqueue IR replayed against the compiled code's traces.",
     note="Trusted: Lean kernel; x86-TSO is mechanised (Lfq/TsoModel.lean: per-thread FIFO store buffers for the plain initialising stores "
          "of node_init / make_dummy, own-buffer-first loads, the five cmpxchg as locked RMWs needing an empty buffer; tso_simulates_sc / "
          "tso_step_is_sc_step: every TSO run is an SC run with the same answers; C12_tso_full_holds; necessity of the one machine "
@@ -223,7 +227,8 @@ CLAIMED = {
          "src/wfcqueue.c and src/wfqueue.c with their static headers, under the macro shim and the cooperative scheduler, in 5 "
          "configurations; every trace replayed by Driver/Wfcq.lean on the models; independent C oracles (reference FIFO updated at the "
          "tail exchanges: order, NULL/empty answers, return values, STATE_LAST, splice, iteration, conservation); random walk, PCT and a "
-         "one-preemption sweep over every xchg->store window; required-branch coverage.",
+         "one-preemption sweep over every xchg->store window; required-branch coverage."
+         " Source-translator tie (DESIGN 10.15): the C text of wfcqueue enqueue / append / empty / node_sync_next / dequeue_with_state / splice is translated into Lean IR on every run and proved to refine the thread-local projection of the Wfcq model (Props/SrcQueue.lean); urcu_ref get/put shapes proved; IR replayed against the compiled code's traces.",
     note="Trusted: Lean kernel; x86-TSO machine; API contracts as model guards (a node is enqueued only when in no queue and with no store "
          "in flight, because node hand-off synchronises; next() only on a queued node; consumer role); L1 ⊑ L2 checked on the explored "
          "schedules only; plain accesses seen through later atomic loads.",
